@@ -58,7 +58,7 @@ def main(tier):
     tmp = tla.scratch("c14-")
     try:
         jobs = []
-        for label, pays, flavours in (("keyed", [0, 1], ["fn", "spec", "unhash", "attr"]), ("self-keyed", [0], ["self", "selfu"])):
+        for label, pays, flavours in (("keyed", [0, 1], ["fn", "spec", "unhash", "attr", "fnz"]), ("self-keyed", [0], ["self", "selfu"])):
             for enforce in (False, True):
                 p = pipeline.write_cfg(tmp, f"{label}-{enforce}.cfg", cfg_text(keys, pays, ml, enforce))
                 r = pipeline.mc_run(rep, "KeyedSet", p, label=f"{label}/enforce={enforce}", workers=8)
